@@ -33,16 +33,16 @@ def short(e): return e['class'][3:]           # CovPenta -> Penta (used in viola
 
 # ----------------------------------------------------------------------------------------------- what the model covers
 POLY = {0, 2, 4, 18, 20, 21, 24, 25, 26}
-FIELD = {11, 13, 15, 16}                       # Linear, GC1, GC3, GC5: depend on the field and on the space dimension
-TRANS = {1, 3, 5, 17, 23}
+FIELD = {11, 13, 14, 15, 16}                   # Linear, GC1, Spline G.C., GC3, GC5: depend on the field and on the space dimension
+TRANS = {1, 3, 5, 17, 22, 23}
 PARAMS = {7: [F(1, 2), F(3, 2), F(5, 2)], 10: [F(1, 2), F(1), F(3, 2), F(2)], 19: [F(1, 2), F(1), F(2), F(7, 2), F(8), F(12)],
-          8: [F(1), F(2), F(3)], 9: [F(1), F(2), F(3)], 12: [F(1)]}
+          8: [F(1), F(2), F(3)], 9: [F(1), F(2), F(3)], 12: [F(1)], 6: [F(1, 8), F(1, 2), F(1), F(3, 2), F(2)]}
 MODEL_TYPES = POLY | FIELD | TRANS | set(PARAMS)
 PARAM_SCADEF = {7, 8, 9, 10}                   # scadef depends on the third parameter (oracle, checked below in floats)
 TOL_POLY, TOL_TRANS, TOL_BESSEL = 1e-12, 1e-11, 1e-9
-DEG = {16: 5, 15: 3}                          # degree of the generalised covariances in (field, h)
+DEG = {16: 5, 15: 3, 14: 2}                          # degree of the generalised covariances in (field, h)
 
-def tol_of(code): return TOL_BESSEL if code == 7 else (TOL_POLY if code in POLY | FIELD | {8, 9, 12} else TOL_TRANS)
+def tol_of(code): return TOL_BESSEL if code in (6, 7) else (TOL_POLY if code in POLY | FIELD | {8, 9, 12} else TOL_TRANS)
 
 def scadef_float(code, p):
     p = float(p)
@@ -417,7 +417,7 @@ def run(ctx):
 
     ctx.log('closed forms done')
     # ------------------------------------------------------------------ 3. anisotropic structures, sums, modes, matrices
-    ncase = 260 if quick else 2600
+    ncase = 200 if quick else 2600
     cases1 = []; meta1 = []
     model_entries = [e for e in entries if e['code'] in MODEL_TYPES]
     for i in range(ncase):
@@ -458,6 +458,12 @@ def run(ctx):
     res1 = correspond_structs(ctx, exe, runner, cases1, meta1, by_code, viol)
 
     ctx.log('structures done')
+    # ------------------------------------------------------------------ 3b. covariances and Legendre spectra on the sphere
+    sphere_tests(ctx, exe, runner, by_code, viol, quick)
+    ctx.log('sphere done')
+    # ------------------------------------------------------------------ 3c. multivariate models: exact PSD decision (LDL^T over Q)
+    exact_psd_models(ctx, exe, runner, by_code, viol, quick)
+    ctx.log('exact LDL^T done')
     # ------------------------------------------------------------------ 4. properties tested on the implementation alone
     property_tests(ctx, exe, entries, by_code, viol, quick)
 
@@ -474,6 +480,7 @@ def run(ctx):
                     3: 'compact support larger than the range', 4: 'getScadef differs from the reference', 5: 'closed form text / shape / space flags differ from the reference',
                     6: 'parameter range larger than the reference'}[f]
             if f in (1, 2, 5) and ctx.psd_found.get(code): continue   # reported with a concrete point set by the search
+            if f == 5 and short(e) in ctx.bad_struct: continue        # reported with a concrete distance by the closed-form correspondence
             if f == 3 and ctx.support_found.get(code): continue
             viol('table:%s:%s' % (short(e), {0: 'unknown', 1: 'dimension', 2: 'order', 3: 'support', 4: 'scadef', 5: 'form', 6: 'parameter'}[f]),
                  "structure '%s': %s (declared max dimension %s, reference %s) and no failing input was found by the search" % (e['name'], what, decl or 'any', ref),
@@ -491,15 +498,20 @@ def run(ctx):
         'reference validity table coq/C03/Valid.v (hand-written from Chiles-Delfiner, Wendland, Yaglom)',
         'python exact rational arithmetic (fractions) for the confirmation of negative directions on the harvested doubles']
     ctx.assumptions = [
-        'positive definiteness of Spherical/Cubic/Wendland (R^3), Exponential, Gaussian, Cauchy, Gamma, Stable, Matern, Cardinal Sine (R^3), J-Bessel, Triangle/Cosinus/Storkey/Reg1D (R^1) '
-        'and conditional positive definiteness of Linear/Power/GC structures is CITED (coq/C03/Valid.v), not proved; the check only explores it numerically',
+        'PROVED for every finite point set: Gaussian (R^d, every d), Cosinus (R^1), nugget (every d); on regular 1-D grids: Triangle, Exponential; closure: sums, non-negative '
+        'combinations, congruence/relabelling, Gram, Schur product with a (weighted) Gram factor, sill (x) kernel, limits, multivariate multi-structure block matrix (C03_model_psd)',
+        'CITED, not proved (coq/C03/Valid.v): positive definiteness of Spherical/Cubic/Penta/Wendland (R^3; partial theorem under the named hypothesis intersection_volume), Exponential, Cauchy, Gamma, '
+        'Stable, Matern, Cardinal Sine (R^3), J-Bessel, Storkey/Reg1D (R^1), conditional positive definiteness of Linear/Power/GC/spline structures, Schoenberg (Legendre matrices on the sphere); '
+        'the check explores them numerically and, for rational closed forms on rational configurations, decides PSD exactly (LDL^T over Q)',
         'coordinates, ranges, sills are dyadic rationals with small mantissas: binary64 and Q read identical inputs',
         'polynomial closed forms are evaluated by the model at a 2^-100 bracket of the square root of the squared normalised distance (exact on perfect squares); '
         'the values at both ends of the bracket are returned (their Lipschitz closeness is not proved)',
+        'J-Bessel: rational partial sums of the alternating series (no square root, no Gamma function: the Gamma ratio is a Pochhammer product); theorem C03_besselj_bracket is about every later partial sum, '
+        'the identification of their limit with the library function is the correspondence (1e-9)',
         'the cut-offs h > MAX_EXP / h > 100 of Exponential, Gaussian, Cosexp are not mirrored (difference < 4e-44)',
-        'J-Bessel, Spline G.C., Spline-2 G.C. have no closed form in the model; Markov and the sphere-only structures have no covariance on R^n and are not offered there (no Bessel / log in the installed libraries): '
-        'only their validity-table entries, text hash and numerical PSD exploration are covered',
-        'third parameter: Matern 1/2, 3/2, 5/2; Stable 1/2, 1, 3/2, 2; Cauchy/Gamma integer; Power 1 (constant term harvested from the implementation)',
+        'Markov has no covariance on R^n (spectrum only) and is not modelled; on the sphere: Geometric, LinearSph, Exponential closed forms, Matern (integer parameter) by its Legendre series, '
+        'spectra of Geometric / Poisson / LinearSph / Matern; not modelled: Poisson covariance (J0 of an irrational argument), Exponential spectrum, CovAniso::evalCovOnSphere scaling by the radius',
+        'third parameter: Matern 1/2, 3/2, 5/2; Stable 1/2, 1, 3/2, 2; Cauchy/Gamma integer; Power 1 (constant term harvested from the implementation); J-Bessel any positive rational',
         'scadef of Matern/Stable/Cauchy/Gamma is harvested from the implementation and checked against its formula in floating point only']
 
 def meta_from_case(c, by_code):
@@ -539,6 +551,7 @@ def model_case_from(c, ii, by_code):
         else: setter, v = 1, vals
         p = param
         if path == 8 and e['hasparam'] and e['parmax'][0] == 'num' and undy(param) > e['parmax'][1]: p = dy(e['parmax'][1])
+        if e.get('parmin_dim') and undy(p) < F(ndim - 2, 2): p = dy(F(ndim - 2, 2))       # ACovFunc::setParam raises the parameter to getParMin()
         ms.append([code, p, setter, v, rot, sill, scadef, cov0 if cov0 != [] else dy(0), []])
     return [1, ndim, nvar, ms, c[4], c[5], c[6]]
 
@@ -568,7 +581,7 @@ def correspond_structs(ctx, exe, runner, cases, metas, by_code, viol):
     _, mo = run_model(ctx, runner, cfm)
     if len(mo) != len(mcases): print('ERROR: model runner returned %d results for %d cases' % (len(mo), len(mcases))); sys.exit(3)
     ndis = 0
-    order = sorted(range(len(idx)), key=lambda a_: ((False, 0) if metas[idx[a_]] is None else (metas[idx[a_]]['mode'] != 'default', len(cases[idx[a_]][3]))))
+    order = sorted(range(len(idx)), key=lambda a_: ((cases[idx[a_]][2] > 1, False, 0) if metas[idx[a_]] is None else (cases[idx[a_]][2] > 1, metas[idx[a_]]['mode'] != 'default', len(cases[idx[a_]][3]))))
     for a in order:
         k = idx[a]
         c, ii, mm, m = cases[k], im[k], mo[a], metas[k]
@@ -651,6 +664,7 @@ def correspond_structs(ctx, exe, runner, cases, metas, by_code, viol):
             acls = [a_ for a_ in (aniso_class(x) for x in (m['structs'] if m else [])) if a_]
             if culprit: key = ctx.bad_struct[culprit]
             elif any(a_ in ctx.bad_aniso for a_ in acls): key = next(a_ for a_ in acls if a_ in ctx.bad_aniso)
+            elif nvar > 1: key = 'multivariate:sill-matrix'       # the same structures pass with one variable (processed first)
             elif m and m['mode'] != 'default': key = 'mode:%s' % m['mode']
             elif acls and len(names) == 1: key = acls[0]; ctx.bad_aniso.add(key)
             elif len(names) == 1: key = 'eval:%s:%s' % (site, names[0]); ctx.bad_struct[names[0]] = key
@@ -691,6 +705,161 @@ def correspond_structs(ctx, exe, runner, cases, metas, by_code, viol):
         if stop: ndis += 1; continue
     ctx.cov['disagreements'] = ctx.cov.get('disagreements', 0) + ndis
     return im
+
+# ----------------------------------------------------------------------------------------------- sphere
+def sphere_tests(ctx, exe, runner, by_code, viol, quick):
+    """ACovFunc::evalCovOnSphere / evalSpectrumOnSphere against the model: closed forms (Geometric, LinearSph, Exponential),
+    Legendre series from the exact rational spectrum (Poisson, Matern with an integer parameter), spectra (non-negative, sum 1)"""
+    rng = ctx.rng
+    cases = []; meta = []
+    alphas = [F(0), F(1, 64), F(1, 8), F(1, 2), F(1), F(3, 2), F(2), F(5, 2), F(3), F(201, 64)] + [F(rng.randint(1, 200), 64) for _ in range(4 if quick else 20)]
+    confs = []
+    for scale in (F(1, 8), F(1, 2), F(3, 4), F(15, 16)): confs.append((28, F(1), scale, 50))
+    for scale in (F(1, 4), F(1), F(3)): confs.append((1, F(1), scale, 50))
+    confs.append((30, F(1), F(1), 50))
+    for lam in (F(1, 2), F(3, 2), F(4)):
+        for deg in (10, 50): confs.append((29, lam, F(1), -deg))      # Poisson: spectrum only (its covariance is exp(..) J0(lambda sin alpha): not modelled)
+    for mu in (F(1), F(2)):
+        for scale in (F(1, 4), F(1)): confs.append((7, mu, scale, 30))
+    for code, param, scale, deg in confs:
+        if deg > 0:
+            cases.append([3, code, dy(param), dy(scale), deg, [dy(a) for a in alphas]]); meta.append(('cov', code, param, scale, deg))
+        deg = abs(deg)
+        if code in (28, 29, 30, 7):
+            # (LinearSph writes sp[1] whatever n: n = 0 is not a usable request for it)
+            for n in ((1, 7, deg) if code == 30 else (0, 1, 7, deg)):
+                cases.append([4, code, dy(param), dy(scale), n]); meta.append(('spec', code, param, scale, n))
+    cf = write_cases(ctx, 'sphere', cases)
+    _, im = run_impl(ctx, exe, cf)
+    if runner is None: return
+    _, mo = run_model(ctx, runner, cf)
+    if len(mo) != len(cases): print('ERROR: model runner returned %d results for %d sphere cases' % (len(mo), len(cases))); sys.exit(3)
+    for k, c in enumerate(cases):
+        what, code, param, scale, n = meta[k]
+        e = by_code[code]; ii = im[k] if k < len(im) else None
+        if ii is None or ii[0] != 1:
+            viol('crash:sphere:' + short(e), 'no answer on the sphere for %s' % e['name'], {'case': sx_str(c)}); continue
+        ctx.count(sx_str(c), True); ctx.dist('sphere_%s_%s' % (what, short(e)))
+        if what == 'cov':
+            if ii[1] != 1:
+                viol('sphere:hasCovOnSphere:' + short(e), '%s has no covariance on the sphere' % e['name'], {'case': sx_str(c)}); continue
+            for j, a in enumerate(alphas):
+                v = undy(ii[3][j]); enc = enc_of(mo[k][j])
+                if enc is None: print('ERROR: model has no sphere covariance for', e['name']); sys.exit(3)
+                if not inside(v, enc, 1e-10):
+                    viol('sphere:covariance:' + short(e), "ACovFunc::evalCovOnSphere of %s (param %s, scale %s, degree %d) at alpha = %s returns %r, the model gives %r"
+                         % (e['name'], param, scale, n, a, float(v) if v is not None else None, float(enc[0])),
+                         {'case': sx_str([3, c[1], c[2], c[3], c[4], [dy(a)]]), 'impl': str(v), 'model': [str(enc[0]), str(enc[1])]}); break
+        else:
+            sp_i = [undy(t) for t in ii[3]]; sp_m = [unq(t) for t in mo[k]]
+            if len(sp_i) != len(sp_m) or any(x is None or abs(x - y) > F(1, 10 ** 12) for x, y in zip(sp_i, sp_m)):
+                viol('sphere:spectrum:' + short(e), 'ACovFunc::evalSpectrumOnSphere of %s (param %s, scale %s, n %d) = %s, the model gives %s'
+                     % (e['name'], param, scale, n, [float(x) if x is not None else None for x in sp_i][:8], [float(y) for y in sp_m][:8]), {'case': sx_str(c)}); continue
+            if any(x < 0 for x in sp_i) or (sp_i and abs(sum(sp_i) - 1) > F(1, 10 ** 12)):
+                viol('sphere:spectrum-not-a-distribution:' + short(e), 'spectrum of %s on the sphere has a negative coefficient or does not sum to 1' % e['name'], {'case': sx_str(c)})
+
+# ----------------------------------------------------------------------------------------------- exact PSD decision
+def ldl_exact(K):
+    """K: symmetric matrix of Fractions.  Symmetric elimination with diagonal pivoting, exact.
+    Returns None if K is positive semi-definite, else a rational vector x with x^T K x < 0."""
+    n = len(K)
+    S = [row[:] for row in K]
+    V = [[F(1) if i == j else F(0) for j in range(n)] for i in range(n)]
+    rem = list(range(n))
+    while rem:
+        neg = next((i for i in rem if S[i][i] < 0), None)
+        if neg is not None: return V[neg]
+        p = max(rem, key=lambda i: S[i][i])
+        if S[p][p] == 0:
+            for a in rem:
+                for b in rem:
+                    if a < b and S[a][b] != 0:
+                        sg = -1 if S[a][b] > 0 else 1
+                        return [V[a][k] + sg * V[b][k] for k in range(n)]
+            return None
+        rem.remove(p)
+        piv = S[p][p]
+        for i in rem:
+            f = S[i][p] / piv
+            if f == 0: continue
+            V[i] = [a - f * b for a, b in zip(V[i], V[p])]
+            Sp = S[p]
+            S[i] = [a - f * b for a, b in zip(S[i], Sp)]
+        for i in rem:
+            for j in rem: S[j][i] = S[i][j] if j > i else S[j][i]
+    return None
+
+EXACT_TYPES = {0: [F(1)], 2: [F(1)], 4: [F(1)], 18: [F(1)], 20: [F(1)], 21: [F(1)], 24: [F(1)], 25: [F(1)], 26: [F(1)], 8: [F(1), F(2)], 9: [F(1), F(2), F(3)]}
+INT_DIST_PTS = [(25, 0), (7, 24), (-7, 24), (-25, 0), (-7, -24), (7, -24), (0, 0)]     # integer mutual distances in the plane
+
+def exact_psd_models(ctx, exe, runner, by_code, viol, quick):
+    """multi-variable, multi-structure models whose covariance matrix is exact in Q (rational closed forms, rational
+    normalised distances): the model's matrix and the implementation's matrix are decided PSD by an exact LDL^T"""
+    if runner is None: return
+    rng = ctx.rng
+    cases = []; meta = []
+    ncase = 24 if quick else 200
+    for t in range(ncase):
+        geo = rng.choice(['line', 'line', 'plane7', 'axis3'])
+        if geo == 'line':
+            ndim = 1; pts = sorted(set((F(rng.randint(0, 60), 4),) for _ in range(rng.randint(5, 9))))
+        elif geo == 'plane7':
+            ndim = 2; pts = [(F(x), F(y)) for x, y in INT_DIST_PTS]
+        else:
+            ndim = 3; ax = rng.randrange(3); pts = sorted(set(tuple(F(rng.randint(0, 40), 4) if d == ax else F(3) for d in range(3)) for _ in range(rng.randint(5, 8))))
+        nvar = rng.choice([2, 2, 3])
+        ncov = rng.choice([1, 2, 3])
+        codes = [c for c in EXACT_TYPES if c in by_code and (by_code[c]['maxdim'] or 9) >= ndim]
+        structs = []
+        for _ in range(ncov):
+            code = rng.choice(codes)
+            param = rng.choice(EXACT_TYPES[code])
+            rg = F(rng.choice([4, 8, 16, 32, 64, 128]), 4) if geo != 'plane7' else F(rng.choice([16, 32, 64]))
+            sill = psd_sill(rng, nvar)
+            structs.append([code, dy(param), 0, [dy(rg)] * ndim, [], M2(sill)])      # path 0: scales given (no scadef)
+        c = [1, ndim, nvar, structs, [], [], [Pt(p) for p in pts], []]
+        cases.append(c); meta.append((geo, ndim, nvar, [by_code[s[0]] for s in structs], pts))
+    cf = write_cases(ctx, 'exactpsd', cases)
+    _, im = run_impl(ctx, exe, cf)
+    mcases = []; idx = []
+    for k, c in enumerate(cases):
+        ii = im[k] if k < len(im) else None
+        if ii is None or ii[0] != 1:
+            viol('crash:structure:' + short(meta[k][3][0]), 'the implementation produced no answer on a multivariate model', {'case': sx_str(c)}); continue
+        mcases.append(model_case_from(c, ii, by_code)); idx.append(k)
+    if not mcases: return
+    cfm = write_cases(ctx, 'exactpsd_m', mcases)
+    _, mo = run_model(ctx, runner, cfm)
+    if len(mo) != len(mcases): print('ERROR: model runner returned %d results for %d cases' % (len(mo), len(mcases))); sys.exit(3)
+    nexact = 0
+    for a, k in enumerate(idx):
+        c = cases[k]; geo, ndim, nvar, es, pts = meta[k]
+        Mm = mo[a][3]; Mi = im[k][4]
+        encs = [[enc_of(t) for t in r] for r in Mm]
+        ctx.count(sx_str(c), True); ctx.dist('exactpsd_' + geo); ctx.dist('exactpsd_nvar_%d' % nvar)
+        if any(t is None for r in encs for t in r): print('ERROR: model has no value for an exact case'); sys.exit(3)
+        if any(t[0] != t[1] for r in encs for t in r): continue           # a distance was not a rational square root: not an exact case
+        nexact += 1
+        Kq = [[t[0] for t in r] for r in encs]
+        names = [e['name'] for e in es]
+        x = ldl_exact(Kq)
+        if x is not None:
+            q = exact_quad(Kq, x)
+            viol('model-psd:exact',
+                 'the exact covariance matrix (closed forms of %s, %d variables, %d points in R^%d) is NOT positive semi-definite: x^T K x = %s for a rational x (exact LDL^T)'
+                 % (names, nvar, len(pts), ndim, q), {'case': sx_str(c), 'x': [str(t) for t in x], 'xKx': str(q)}); continue
+        # the implementation's matrix: the same exact decision on the returned doubles, up to the rounding of the entries
+        Ki = [[undy(t) for t in r] for r in Mi]
+        n = len(Ki)
+        tr = sum(Ki[i][i] for i in range(n))
+        Kreg = [[Ki[i][j] + (F(1, 10 ** 11) * tr / n if i == j else 0) for j in range(n)] for i in range(n)]
+        x = ldl_exact(Kreg)
+        if x is not None:
+            q = exact_quad(Ki, x)
+            viol('model-psd:impl',
+                 "Model::evalCovMatrixSymmetric of %s (%d variables, PSD sills, %d points in R^%d): x^T K x = %.6g < -1e-11 trace/n |x|^2 for a rational x (exact LDL^T on the returned doubles), while the exact matrix of the closed forms is PSD"
+                 % (names, nvar, len(pts), ndim, float(q)), {'case': sx_str(c), 'x': [str(t) for t in x], 'xKx': str(q)})
+    ctx.cov['exact_psd_matrices'] = nexact
 
 # ----------------------------------------------------------------------------------------------- property tests on the implementation
 def axis_dirs(ndim, ang):
